@@ -376,15 +376,13 @@ Qed.
 
 (* ---- declarations ---- *)
 Variable tvs : list str.             (* the generic parameter names of the program *)
-Variable allfields : list rfield.    (* the named fields of the program (structs and struct variants) *)
 Definition c12_py_fn_names : list str :=
   [lit "serialize_binary_data"; lit "deserialize_binary_data"; lit "serialize_datetime_data"; lit "parse_rfc3339"].
-(* u is a (de)serialiser function of a text p that is in the translation set, or that some
-   serde(default) field of a non-Option type prints as (decided by the spec's reader of the INPUT) *)
+(* u is a (de)serialiser function of a text p that is in the translation set (write_field registers the type the
+   translation was found for, also for a serde(default) field of a non-Option type: python.rs:464) *)
 Definition c12_py_fnok (u : str) (s : py_state) : Prop :=
   exists p ct, py_json_translation_for_type p = Some ct /\ (u = py_de_name ct \/ u = py_ser_name ct) /\
-    (In p (py_custom_types s) \/
-     exists f, In f allfields /\ c12_py_wrapped f = true /\ c12_py_custom tm (fty f) = Some p).
+    In p (py_custom_types s).
 (* a used name is a type-variable name of the program, such a function name, a TypeVar the
    header declares, or imported *)
 Definition c12_py_ok (u : str) (s : py_state) : Prop :=
@@ -392,8 +390,8 @@ Definition c12_py_ok (u : str) (s : py_state) : Prop :=
 Lemma c12_py_ok_up u s s' : c12_py_ok u s -> c12_ple s s' -> c12_py_ok u s'.
 Proof.
   unfold c12_py_ok. intros [H|[H|[H|H]]] L; auto.
-  - right. left. destruct H as (p & ct & E & Hu & [Hp|Hf]); exists p, ct; repeat split; auto.
-    left. apply (c12_ple_cu _ _ L), Hp.
+  - right. left. destruct H as (p & ct & E & Hu & Hp); exists p, ct; repeat split; auto.
+    apply (c12_ple_cu _ _ L), Hp.
   - right. right. left. apply (c12_ple_tv _ _ L), H.
   - right. right. right. eapply c12_py_imp_up; eauto.
 Qed.
@@ -442,13 +440,13 @@ Lemma c12_py_fnok_names u s : c12_py_fnok u s -> In u c12_py_fn_names.
 Proof. intros (p & ct & E & [->| ->] & _); apply (c12_py_translation_names _ _ E). Qed.
 
 Definition c12_py_Qm (m : py_member) (s : py_state) : Prop := c12_py_all (c12_py_member_uses tvs m) s.
-(* what writing the field f leaves in the translation set *)
+(* what writing the field f leaves in the translation set (with or without serde(default)) *)
 Definition c12_py_Rf (f : rfield) (s : py_state) : Prop :=
   c12_py_Rt (fty f) s /\
-  (c12_py_wrapped f = false -> forall p, c12_py_custom tm (fty f) = Some p -> In p (py_custom_types s)).
+  (forall p, c12_py_custom tm (fty f) = Some p -> In p (py_custom_types s)).
 Lemma c12_py_Rf_up f s s' : c12_py_Rf f s -> c12_ple s s' -> c12_py_Rf f s'.
 Proof.
-  intros [A B] L. split; [eapply c12_py_Rt_up; eauto|]. intros W p Hp. apply (c12_ple_cu _ _ L). exact (B W p Hp).
+  intros [A B] L. split; [eapply c12_py_Rt_up; eauto|]. intros p Hp. apply (c12_ple_cu _ _ L). exact (B p Hp).
 Qed.
 Definition c12_py_Rfs (fs : list rfield) (s : py_state) : Prop := Forall (fun f => c12_py_Rf f s) fs.
 Lemma c12_py_Rfs_up fs s s' : c12_py_Rfs fs s -> c12_ple s s' -> c12_py_Rfs fs s'.
@@ -458,29 +456,26 @@ Lemma c12_lbr_not_dt p : In c12_ch_lbr p -> p <> lit "datetime".
 Proof. intros H ->. vm_compute in H. repeat (destruct H as [H|H]; [discriminate H|]). exact H. Qed.
 
 Lemma c12_py_member_flag gs f :
-  Forall c12_py_id_ok (c12_rtype_ids (fty f)) -> In f allfields ->
+  Forall c12_py_id_ok (c12_rtype_ids (fty f)) ->
   forall s m s', py_member_of uc cfg gs f s = Ok (m, s') -> c12_ple s s' /\ c12_py_Qm m s' /\ c12_py_Rf f s'.
 Proof.
-  intros Hid Hall s m s' H. unfold py_member_of in H.
+  intros Hid s m s' H. unfold py_member_of in H.
   apply mbind_ok in H as (ty & s1 & Ety & H). destruct (c12_py_texp_imports _ _ Hid _ _ _ Ety) as [L1 Q1].
   destruct (c12_py_texp_custom _ _ Hid _ _ _ Ety) as [C1 D1]. pose proof (c12_py_texp_registers _ _ Hid _ _ _ Ety) as R1.
   apply mbind_ok in H as (u & s2 & Ec & H). apply c12_py_common_spec in Ec as (L2 & IO & IA & IF).
   apply mbind_ok in H as (ann & s3 & Ea & H). c12_ret H.
-  assert (Hwr : c12_py_wrapped f = negb (is_optional (fty f)) && has_default f) by (unfold c12_py_wrapped; apply andb_comm).
   pose proof (c12_py_translation_custom (py_show ty)) as Htc.
   (* the annotation step *)
   assert (A3 : c12_ple s2 s3 /\
                match py_json_translation_for_type (py_show ty) with
                | Some ct => ann = Some (py_de_name ct, py_ser_name ct) /\
-                            In (py_show (if negb (is_optional (fty f)) && has_default f then XOpt ty else ty)) (py_custom_types s3)
+                            In (py_show ty) (py_custom_types s3)
                | None => ann = None
                end).
   { destruct (py_json_translation_for_type (py_show ty)) as [ct|] eqn:Ect.
     - apply mbind_ok in Ea as (u3 & s4 & E4 & Ea). c12_ret Ea.
       apply c12_py_add_custom_spec in E4 as [L4 I4]; [split; [exact L4|split; [reflexivity|exact I4]]|].
-      destruct (negb (is_optional (fty f)) && has_default f).
-      + intros E. exfalso. revert E. apply c12_lbr_not_dt. cbn [py_show]. apply c12_in_lbr_opt.
-      + intros E. destruct (D1 E) as [K|K]; [left; eapply c12_py_imp_up; eauto|right; exact K].
+      intros E. destruct (D1 E) as [K|K]; [left; eapply c12_py_imp_up; eauto|right; exact K].
     - c12_ret Ea. split; [apply c12_ple_refl|reflexivity]. }
   destruct A3 as [L3 A3].
   split; [eapply c12_ple_trans; [exact L1|eapply c12_ple_trans; eauto]|]. split.
@@ -498,9 +493,7 @@ Proof.
       * destruct A3 as [-> I4]. cbn [py_is_some] in Htc.
         destruct (IA eq_refl) as (J1 & J2 & J3).
         assert (F : forall u1, u1 = py_de_name ct \/ u1 = py_ser_name ct -> c12_py_fnok u1 s3).
-        { intros u1 Hu1. exists (py_show ty), ct. split; [exact Ect|]. split; [exact Hu1|].
-          destruct (negb (is_optional (fty f)) && has_default f) eqn:En; [right|left; exact I4].
-          exists f. split; [exact Hall|]. split; [exact Hwr|]. rewrite C1, <- Htc. reflexivity. }
+        { intros u1 Hu1. exists (py_show ty), ct. split; [exact Ect|]. split; [exact Hu1|exact I4]. }
         destruct Hu as [<-|[<-|[<-|[<-|[<-|[]]]]]].
         -- right. right. right. eapply c12_py_imp_up; eauto.
         -- right. right. right. eapply c12_py_imp_up; eauto.
@@ -516,7 +509,7 @@ Proof.
         apply andb_true_iff in Eb as [_ Eb]. rewrite Eb, !orb_true_r. reflexivity.
   - split.
     + eapply c12_py_Rt_up; [exact R1|]. eapply c12_ple_trans; eauto.
-    + intros W p Hp. rewrite C1 in Hp. rewrite Hwr in W. rewrite W in A3.
+    + intros p Hp. rewrite C1 in Hp.
       destruct (py_json_translation_for_type (py_show ty)) as [ct|]; cbn [py_is_some] in Htc; rewrite <- Htc in Hp; [|discriminate Hp].
       injection Hp as <-. exact (proj2 A3).
 Qed.
@@ -537,7 +530,7 @@ Proof.
 Qed.
 
 Definition c12_py_fields_ok (fs : list rfield) : Prop :=
-  Forall (fun f => Forall c12_py_id_ok (c12_rtype_ids (fty f))) fs /\ incl fs allfields.
+  Forall (fun f => Forall c12_py_id_ok (c12_rtype_ids (fty f))) fs.
 
 (* what writing a class leaves behind: its fields' translations, a TypeVar for each of its parameters *)
 Definition c12_py_Rs (rs : rstruct) (s : py_state) : Prop :=
@@ -547,7 +540,7 @@ Lemma c12_py_class_flag rs :
   c12_py_fields_ok (sfields rs) ->
   forall s d s', py_class_of uc cfg rs s = Ok (d, s') -> c12_ple s s' /\ c12_py_Qd d s' /\ c12_py_Rs rs s'.
 Proof.
-  intros [Hid Hall] s d s' H. unfold py_class_of in H.
+  intros Hid s d s' H. unfold c12_py_fields_ok in Hid. unfold py_class_of in H.
   apply mbind_ok in H as (u1 & s1 & E1 & H). apply c12_py_add_import_spec in E1 as [L1 I1].
   apply mbind_ok in H as (u2 & s2 & E2 & H). apply c12_py_add_type_vars_spec in E2 as [L2 I2].
   apply mbind_ok in H as (u3 & s3 & E3 & H).
@@ -560,7 +553,7 @@ Proof.
   apply (c12_mmapM_mono2 c12_ple c12_ple_refl c12_ple_trans _ c12_py_Qm c12_py_Rf) in E5 as (L5 & Q5 & R5).
   2: { intros y a b Qy Lab. eapply c12_py_all_up; eauto. }
   2: exact c12_py_Rf_up.
-  2: { rewrite Forall_forall in Hid |- *. intros f Hf. apply c12_py_member_flag; [exact (Hid f Hf)|exact (Hall f Hf)]. }
+  2: { rewrite Forall_forall in Hid |- *. intros f Hf. apply c12_py_member_flag; exact (Hid f Hf). }
   assert (M4 : c12_ple s4 s5) by exact L5.
   assert (M3 : c12_ple s3 s5) by (eapply c12_ple_trans; eauto).
   assert (M2 : c12_ple s2 s5) by (eapply c12_ple_trans; eauto).
@@ -584,21 +577,19 @@ Definition c12_anon_fields (vs : list rvariant) : list rfield :=
 
 Lemma c12_py_inner_flag e vs :
   Forall (fun v => Forall (fun t => Forall c12_py_id_ok (c12_rtype_ids t)) (c12_variant_types v)) vs ->
-  incl (c12_anon_fields vs) allfields ->
   forall s ds s', py_inner_classes_of uc cfg e vs s = Ok (ds, s') ->
     c12_ple s s' /\ c12_py_Qds ds s' /\ c12_py_Rfs (c12_anon_fields vs) s'.
 Proof.
-  induction 1 as [|v vs Hv Hvs IH]; intros Hall s ds s' H; cbn [py_inner_classes_of] in H.
+  induction 1 as [|v vs Hv Hvs IH]; intros s ds s' H; cbn [py_inner_classes_of] in H.
   - c12_ret H. split; [apply c12_ple_refl|split; constructor].
-  - unfold c12_anon_fields in Hall |- *. cbn [flat_map] in Hall |- *.
-    destruct v as [vsh|t vsh|fs vsh]; try (apply IH; [exact Hall|exact H]).
-    apply incl_app_inv in Hall as [Hall1 Hall2].
+  - unfold c12_anon_fields. cbn [flat_map].
+    destruct v as [vsh|t vsh|fs vsh]; try (apply IH; exact H).
     apply mbind_ok in H as (c & s1 & Ec & H). apply mbind_ok in H as (cs & s2 & Ecs & H). c12_ret H.
     apply c12_py_class_flag in Ec as (L1 & Q1 & R1 & _).
-    + destruct (IH Hall2 _ _ _ Ecs) as (L2 & Q2 & R2). split; [eapply c12_ple_trans; eauto|]. split.
+    + destruct (IH _ _ _ Ecs) as (L2 & Q2 & R2). split; [eapply c12_ple_trans; eauto|]. split.
       * constructor; [eapply c12_py_Qd_up; eauto|exact Q2].
       * apply Forall_app. split; [|exact R2]. cbn [anon_struct sfields] in R1. exact (c12_py_Rfs_up _ _ _ R1 L2).
-    + split; cbn [anon_struct sfields]; [|exact Hall1]. cbn [c12_variant_types] in Hv. rewrite Forall_map in Hv. exact Hv.
+    + unfold c12_py_fields_ok. cbn [anon_struct sfields]. cbn [c12_variant_types] in Hv. rewrite Forall_map in Hv. exact Hv.
 Qed.
 
 Definition c12_py_Qv (v : py_variant) (s : py_state) : Prop :=
@@ -674,18 +665,18 @@ Proof.
   - right. right. right. destruct vs as [|v0 [|v1 r]]; try (destruct Hu as [<-|[]]; apply I5; exact Logic.I). destruct Hu.
 Qed.
 
-(* the generic parameters for which writing the item declares a TypeVar (the summand of c12_py_tv_declared) *)
+(* the generic parameters for which writing the item declares a TypeVar (the summand of c12_py_tv_vocab):
+   write_struct, write_algebraic_enum and (python.rs:280) write_type_alias call add_type_var *)
 Definition c12_py_item_tvs (it : ritem) : list str :=
   match it with
   | ItStruct s => sgenerics s
   | ItEnum (EAlgebraic _ _ sh) => egenerics sh
+  | ItAlias a => agenerics a
   | _ => []
   end.
 
 Definition c12_py_item_ok (it : ritem) : Prop :=
-  Forall (fun t => Forall c12_py_id_ok (c12_rtype_ids t)) (c12_item_types it) /\
-  match it with ItAlias a => incl (agenerics a) tvs | _ => True end /\
-  incl (c12_item_fields it) allfields.
+  Forall (fun t => Forall c12_py_id_ok (c12_rtype_ids t)) (c12_item_types it).
 
 (* what writing the item leaves in the state *)
 Definition c12_py_Ri (it : ritem) (s : py_state) : Prop :=
@@ -726,15 +717,15 @@ Lemma c12_py_decl_flag it :
   c12_py_item_ok it ->
   forall s ds s', py_decl_of uc cfg it s = Ok (ds, s') -> c12_ple s s' /\ c12_py_Qds ds s' /\ c12_py_Ri it s'.
 Proof.
-  intros (Hid & Hg & Hall) s ds s' H. destruct it as [rs|e|a|c]; cbn [py_decl_of] in H.
+  intros Hid s ds s' H. unfold c12_py_item_ok in Hid. destruct it as [rs|e|a|c]; cbn [py_decl_of] in H.
   - apply mbind_ok in H as (d & s1 & E & H). c12_ret H.
     apply c12_py_class_flag in E as (L & Q & R & T).
     + split; [exact L|]. split; [constructor; [exact Q|constructor]|].
       split; [|split; [exact R|exact T]]. cbn [c12_item_types]. rewrite Forall_map.
       eapply Forall_impl; [|exact R]. cbn. intros f Hf. exact (proj1 Hf).
-    + split; [|exact Hall]. cbn [c12_item_types] in Hid. rewrite Forall_map in Hid. exact Hid.
+    + unfold c12_py_fields_ok. cbn [c12_item_types] in Hid. rewrite Forall_map in Hid. exact Hid.
   - cbn [c12_item_types] in Hid. apply c12_variant_types_Forall2 in Hid.
-    apply mbind_ok in H as (inners & s1 & Ei & H). apply c12_py_inner_flag in Ei as (L1 & Q1 & R1); [|exact Hid|exact Hall].
+    apply mbind_ok in H as (inners & s1 & Ei & H). apply c12_py_inner_flag in Ei as (L1 & Q1 & R1); [|exact Hid].
     destruct e as [sh|tag content sh]; cbn [enum_shared] in *.
     + apply mbind_ok in H as (u2 & s2 & E2 & H). apply c12_py_add_import_spec in E2 as [L2 I2].
       apply mbind_ok in H as (vs & s3 & E3 & H). c12_ret H.
@@ -753,14 +744,15 @@ Proof.
       * unfold c12_py_Qds. apply Forall_app. split; [exact (c12_py_Qds_up _ _ _ Q1 L2)|constructor; [exact Q2|constructor]].
       * split; [|split; [exact (c12_py_Rfs_up _ _ _ R1 L2)|exact T2]].
         cbn [c12_item_types enum_shared]. apply c12_py_variants_Rt; [exact R2|exact (c12_py_Rfs_up _ _ _ R1 L2)].
-  - apply mbind_ok in H as (ty & s1 & E & H). c12_ret H.
+  - apply mbind_ok in H as (ty & s1 & E & H). apply mbind_ok in H as (utv & s2 & Etv & H). c12_ret H.
+    apply c12_py_add_type_vars_spec in Etv as [Ltv Itv].
     cbn [c12_item_types] in Hid. apply Forall_cons_iff in Hid as [Ht _].
     destruct (c12_py_texp_imports _ _ Ht _ _ _ E) as [L Q]. pose proof (c12_py_texp_registers _ _ Ht _ _ _ E) as R.
-    split; [exact L|]. split.
+    split; [eapply c12_ple_trans; eauto|]. split.
     + constructor; [|constructor].
-      intros u0 Hu. cbn [c12_py_decl_uses] in Hu. apply in_app_iff in Hu as [Hu|Hu]; [left; apply Hg, Hu|].
-      exact (c12_py_tuses_ok _ _ Q u0 Hu).
-    + split; [constructor; [exact R|constructor]|split; [constructor|intros g []]].
+      intros u0 Hu. cbn [c12_py_decl_uses] in Hu.
+      eapply c12_py_ok_up; [exact (c12_py_tuses_ok _ _ Q u0 Hu)|exact Ltv].
+    + split; [constructor; [eapply c12_py_Rt_up; eauto|constructor]|split; [constructor|exact Itv]].
   - apply mbind_ok in H as (ty & s1 & E & H). c12_ret H.
     cbn [c12_item_types] in Hid. apply Forall_cons_iff in Hid as [Ht _].
     destruct (c12_py_texp_imports _ _ Ht _ _ _ E) as [L Q]. pose proof (c12_py_texp_registers _ _ Ht _ _ _ E) as R.
@@ -788,15 +780,13 @@ End PY.
 (* ---- the file ---- *)
 Lemma c12_py_items_ok cfg pd items :
   Permutation items (items_of pd) -> c12_py_dom cfg (items_of pd) = true ->
-  Forall (c12_py_item_ok (c12_py_tv_vocab (items_of pd)) (flat_map c12_item_fields (items_of pd))) items.
+  Forall c12_py_item_ok items.
 Proof.
   intros Et Hdom. unfold c12_py_dom in Hdom. apply andb_true_iff in Hdom as [Hids _].
   apply Forall_forall. intros it Hit. assert (Hit' : In it (items_of pd)) by (eapply Permutation_in; eauto).
-  destruct (c12_ids_avoid_spec _ _ _ Hids it Hit') as [Hi _]. split; [|split].
-  - apply Forall_forall. intros t Ht. apply Forall_forall. intros id Hid. apply (Hi id).
-    unfold c12_item_ids. apply in_flat_map. eauto.
-  - destruct it as [| |a|]; auto. intros g Hg. unfold c12_py_tv_vocab. apply in_flat_map. exists (ItAlias a). auto.
-  - intros f Hf. apply in_flat_map. eauto.
+  destruct (c12_ids_avoid_spec _ _ _ Hids it Hit') as [Hi _]. unfold c12_py_item_ok.
+  apply Forall_forall. intros t Ht. apply Forall_forall. intros id Hid. apply (Hi id).
+  unfold c12_item_ids. apply in_flat_map. eauto.
 Qed.
 
 (* PARTIAL theorem for the file (kept; superseded by c12_py_file below): every name the declarations of
@@ -813,7 +803,7 @@ Proof.
   destruct (mmapM (py_decl_of uc cfg) items py_empty_state) as [[dss st']| |] eqn:E; try discriminate H.
   injection H as <- <-.
   pose proof (c12_py_items_ok cfg pd items Et Hdom) as Hok.
-  destruct (c12_py_items_flag uc cfg _ _ _ Hok _ _ _ E) as (_ & Q & _).
+  destruct (c12_py_items_flag uc cfg (c12_py_tv_vocab (items_of pd)) _ Hok _ _ _ E) as (_ & Q & _).
   destruct (Q u Hu) as [A|[A|[A|A]]]; auto.
   - right. left. eapply c12_py_fnok_names; eauto.
   - right. right. unfold c12_py_defs. apply in_app_iff. now left.
@@ -840,21 +830,13 @@ Proof.
   rewrite Ekv, str_eqb_refl in H. discriminate H.
 Qed.
 
-(* (a) outside C12-python-alias-typevar every generic parameter name of the program has its TypeVar *)
-Lemma c12_py_tv_declared_in items u :
-  In u (c12_py_tv_declared items) -> exists it, In it items /\ In u (c12_py_item_tvs it).
-Proof. unfold c12_py_tv_declared. intros H. apply in_flat_map in H as (it & Hit & Hu). exists it. split; [exact Hit|exact Hu]. Qed.
-
-Lemma c12_py_vocab_declared items :
-  c12_py_alias_typevar items = false -> incl (c12_py_tv_vocab items) (c12_py_tv_declared items).
+(* (a) every generic parameter name of the program (of a struct, an algebraic enum, an alias) is a parameter of an
+   item whose writer declares its TypeVars *)
+Lemma c12_py_tv_vocab_in items u :
+  In u (c12_py_tv_vocab items) -> exists it, In it items /\ In u (c12_py_item_tvs it).
 Proof.
-  intros Ha u Hu. unfold c12_py_tv_vocab in Hu. apply in_flat_map in Hu as (it & Hit & Hu).
-  unfold c12_py_alias_typevar in Ha. pose proof (c12_existsb_false _ _ Ha it Hit) as Hn.
-  destruct it as [s|e|a|c].
-  - unfold c12_py_tv_declared. apply in_flat_map. exists (ItStruct s). auto.
-  - unfold c12_py_tv_declared. apply in_flat_map. exists (ItEnum e). auto.
-  - pose proof (c12_existsb_false _ _ Hn u Hu) as Hg. apply negb_false_iff in Hg. apply c12_mem_str_In. exact Hg.
-  - destruct Hu.
+  unfold c12_py_tv_vocab. intros H. apply in_flat_map in H as (it & Hit & Hu). exists it. split; [exact Hit|].
+  destruct it as [s|[sh|t c sh]|a|c]; exact Hu.
 Qed.
 
 (* (b) the functions of the translation set are the ones the header writes *)
@@ -878,40 +860,25 @@ Proof.
 Qed.
 
 Theorem c12_py_file uc cfg pd ds st :
-  py_decls uc cfg pd = Ok (ds, st) -> c12_py_dom cfg (items_of pd) = true -> c12_py_known cfg pd = None ->
+  py_decls uc cfg pd = Ok (ds, st) -> c12_py_dom cfg (items_of pd) = true ->
   forall u, In u (c12_py_uses (c12_py_tv_vocab (items_of pd)) ds (py_type_variables st) (c12_py_fns st)) ->
     In u (c12_py_defs (py_type_variables st) (c12_py_fns st) (c12_py_imported st)).
 Proof.
-  unfold py_decls. intros H Hdom Hk u Hu. apply c12_bind_ok in H as (items & Et & H).
+  unfold py_decls. intros H Hdom u Hu. apply c12_bind_ok in H as (items & Et & H).
   apply c12_topsort_perm in Et.
   destruct (mmapM (py_decl_of uc cfg) items py_empty_state) as [[dss st']| |] eqn:E; try discriminate H.
   injection H as <- <-.
   pose proof (c12_py_items_ok cfg pd items Et Hdom) as Hok.
-  destruct (c12_py_items_flag uc cfg _ _ _ Hok _ _ _ E) as (L & Q & R).
+  destruct (c12_py_items_flag uc cfg (c12_py_tv_vocab (items_of pd)) _ Hok _ _ _ E) as (L & Q & R).
   pose proof (c12_py_dom_no_dt _ _ Hdom) as Hnodt.
-  (* the two classes are excluded *)
-  unfold c12_py_known in Hk.
-  destruct (c12_py_alias_typevar (items_of pd)) eqn:Ka; [discriminate Hk|].
-  destruct (c12_py_default_translation (py_type_mappings cfg) (items_of pd)) eqn:Kd; [discriminate Hk|]. clear Hk.
   rewrite Forall_forall in R.
   assert (Rin : forall it, In it (items_of pd) -> c12_py_Ri cfg it st').
   { intros it Hit. apply R. eapply Permutation_in; [apply Permutation_sym; exact Et|exact Hit]. }
   (* (a) *)
   assert (Ha : forall g, In g (c12_py_tv_vocab (items_of pd)) -> In g (py_type_variables st')).
-  { intros g Hg. apply (c12_py_vocab_declared _ Ka) in Hg. apply c12_py_tv_declared_in in Hg as (it & Hit & Hg).
+  { intros g Hg. apply c12_py_tv_vocab_in in Hg as (it & Hit & Hg).
     destruct (Rin it Hit) as (_ & _ & T). exact (T g Hg). }
-  (* (b) *)
-  assert (Hb : forall f p, In f (flat_map c12_item_fields (items_of pd)) -> c12_py_wrapped f = true ->
-                           c12_py_custom (py_type_mappings cfg) (fty f) = Some p -> In p (py_custom_types st')).
-  { intros f p Hf Hw Hp. unfold c12_py_default_translation in Kd. pose proof (c12_existsb_false _ _ Kd f Hf) as Kf.
-    cbv beta in Kf. rewrite Hw, Hp in Kf. cbn [andb] in Kf. apply negb_false_iff in Kf. apply orb_true_iff in Kf as [Kf|Kf].
-    - apply existsb_exists in Kf as (g & Hg & Kg). apply andb_true_iff in Kg as [Wg Cg]. apply negb_true_iff in Wg.
-      destruct (c12_py_custom (py_type_mappings cfg) (fty g)) as [q|] eqn:Eq; [|discriminate Cg].
-      apply str_eqb_eq in Cg. subst q.
-      apply in_flat_map in Hg as (it & Hit & Hg). destruct (Rin it Hit) as (_ & RF & _).
-      unfold c12_py_Rfs in RF. rewrite Forall_forall in RF. exact (proj2 (RF g Hg) Wg p Eq).
-    - apply c12_mem_str_In in Kf. apply in_flat_map in Kf as (t & Ht & Kf). apply in_flat_map in Ht as (it & Hit & Ht).
-      destruct (Rin it Hit) as (RT & _ & _). rewrite Forall_forall in RT. exact (RT t Ht p Kf). }
+  (* (b) the helper functions an annotation names: their type is in the translation set (c12_py_fnok) *)
   unfold c12_py_uses in Hu. unfold c12_py_defs. rewrite !in_app_iff. apply in_app_iff in Hu as [Hu|Hu].
   - (* (c) the header's own uses *)
     unfold c12_py_header_uses in Hu. apply in_app_iff in Hu as [Hu|Hu].
@@ -923,7 +890,6 @@ Proof.
       destruct L as (_ & _ & _ & _ & L5). destruct (L5 Em) as [K|[K|K]]; [destruct K| |contradiction].
       right. right. exact K.
   - destruct (Q u Hu) as [A|[A|[A|A]]]; auto.
-    destruct A as (p & ct & Ect & Hname & [Hp|(f & Hf & Hw & Hp)]).
-    + right. left. eapply c12_py_fns_in; eauto.
-    + right. left. eapply c12_py_fns_in; eauto.
+    destruct A as (p & ct & Ect & Hname & Hp).
+    right. left. eapply c12_py_fns_in; eauto.
 Qed.
